@@ -431,7 +431,9 @@ BUILDER_ALL = '  UnitKinds = {"set32", "set64", "getp", "getq"}\n  MaxPos = 3\n 
 BUILDER_STRUCT = '  UnitKinds = {}\n  MaxPos = 1\n  Sigs = {}\n'
 # blocks / loops whose signature has a parameter or a result (InstrSeqType::new), one unit kind, branches to them
 BUILDER_TYPED = '  UnitKinds = {"getp"}\n  MaxPos = 2\n  Sigs = {1, 2}\n'
-BUILDER_WALK = '  UnitKinds = {"set32", "set64", "getp", "getq"}\n  MaxPos = 3\n  Sigs = {1, 2}\n'
+BUILDER_WALK = '  UnitKinds = {"set32", "set64", "getp", "getq", "tcopy", "mcopy", "tinit", "minit"}\n  MaxPos = 3\n  Sigs = {1, 2}\n'
+# instructions with two operands of one kind / an operand pair whose order matters, built through the API
+BUILDER_PAIRS = '  UnitKinds = {"getp", "tcopy", "mcopy", "tinit", "minit"}\n  MaxPos = 4\n  Sigs = {}\n'
 
 
 def check_C15(ctx):
@@ -452,6 +454,9 @@ def check_C15(ctx):
     cfg = write_cfg("Enum_Builder_genT", BUILDER_CFG % (3, BUILDER_TYPED, "EmitCase"))
     r = tlc("Builder", cfg=cfg, workers=8, cont=False, capture=("CASE", hist + ".t"), name="enum-builder-typed")
     ctx.add_mc(r, "enum-build-histories-with-typed-blocks(len<=3)")
+    cfg = write_cfg("Enum_Builder_genP", BUILDER_CFG % (2, BUILDER_PAIRS, "EmitCase"))
+    r = tlc("Builder", cfg=cfg, workers=8, cont=False, capture=("CASE", hist + ".p"), name="enum-builder-pairs")
+    ctx.add_mc(r, "enum-build-histories-with-two-operand-instructions(len<=2)")
     cfg = write_cfg("MC_Builder_genT", BUILDER_CFG % (3 if q else 4, BUILDER_TYPED, "TreeShaped\n  FlatBalanced\n  BranchesInRange"))
     model_check(ctx, "Builder", cfg=cfg, workers=8, label="design-builder-typed")
     cfg = write_cfg("Enum_Builder_genD", BUILDER_CFG % (D, BUILDER_WALK, "EmitCase"))
@@ -484,7 +489,9 @@ def check_C15(ctx):
         typed_all = [l for l in open(hist + ".t") if "tblock" in l]
         typed = typed_all if not q else [l for l in typed_all if (zlib.crc32(l.encode()) + ctx.seed) % max(1, len(typed_all) // 8000) == 0]
         ctx.notes["typed_block_histories"] = {"enumerated": len(typed_all), "replayed": len(typed)}
-        for line in full + typed + struct + longer[::step]:
+        pairs = [l for l in open(hist + ".p") if any(k in l for k in ("tcopy", "mcopy", "tinit", "minit"))]
+        ctx.notes["two_operand_instruction_histories"] = len(pairs)
+        for line in full + typed + pairs + struct + longer[::step]:
             if line not in seen:
                 seen.add(line)
                 out.write(line)
